@@ -57,5 +57,6 @@ RULE = (
     "distinct = distinct trace. The recovery clause (producing/consuming resume) is checked with the PROD and CONS engines (ProdRec, ConsRec: leader moves, restarts, refused connections, script 'outage' = a leader unreachable for longer than the request timeout; after the faults cease a fresh send is acknowledged / the consumer delivers the rest of the log)."
     " Topics can be deleted and re-created with fewer partitions (ops tdel/tnew, script 'topicgone'); the reply a load consumed is matched by correlation id and address knowledge is ordered by delivery; an acks=0 success with an unwritten payload is a hidden failed send that must have invalidated the routing."
     " A failed send invalidates what it used: the failed payloads' topics, or - for OffsetCommit/OffsetFetch - the group's cached coordinator (no such request of a later call before a FindCoordinator for the group is written or a FindCoordinator reply for it is delivered). Metadata replies list partitions in ascending, descending or rotated order (md_order)."
+    ' A consumer with an attempt limit N >= 3 that gives up after fewer than N-1 consecutive failures following a success did not resume within its retry budget.'
 )
 ASSUMPTIONS = ["whether a delivered reply was consumed is not observable (late replies are discarded), hence clause (b) quantifies over all delivered replies since the last witnessed one"]
